@@ -319,4 +319,29 @@ CHECKS["C05"] = dict(
     thorough=dict(workers=16, cases=4000, maxsize=300),
 )
 
+CHECKS["C13"] = dict(
+    harness="C13_connect", sources=["props/C13_connect.cc", "shim/shim.c", "pki/pki.cc", "stubs/ares_stub.c"], variant="asan",
+    level="exploration", engine="rapidcheck + scripted resolver (c-ares entry points interposed) + listener pool + shim connect log + ASan (stack-use-after-return on)",
+    technique="model-based property testing: generated resolver answers and accept/refuse/silent role maps, "
+              "judged by a reference model of the single / sequential / happy-eyeballs algorithms "
+              "(outcome, connected peer, order of connect() calls, errno, time bounds, source address)",
+    level_text="Resolver answers of 1..44 addresses (127.0.0.x accepting, 127.0.1.x refusing, 127.0.2.x silent "
+               "behind a full accept queue, ::1 with a per-case role), delivered at once, after 1-30 ms, as "
+               "NOTFOUND, or never (dns.timeout 80-170 ms); the three dns.algorithm values; "
+               "tcp.connect_timeout 50-240 ms; optional xcm.local_addr (port 0 or fixed); tcp, btcp, tls, "
+               "btls, utls; non-blocking (driven by xcm_finish + poll) and, for tcp/btcp, blocking connect; "
+               "xcm_server on resolvable and unresolvable names in a forked child under a 5 s watchdog. Sampled.",
+    level_note="TLS transports are judged at TCP level (the listeners are raw sockets): established = the "
+               "connection's descriptor has a peer. Time bounds are one-sided/wide: not earlier than the silent "
+               "attempts' timeouts minus 12 ms, not later than 3x the model's time plus 2 s.",
+    rule=("case = transport x algorithm x resolver behaviour x timeouts x local address x answer list "
+          "(one step per address). Non-trivial = more than one address with more than one attempt, or both "
+          "families, or more than 32 addresses, or a silent address, or resolver failure/silence, or the "
+          "xcm_server probe on an unresolvable name."),
+    assumptions=["only ::1 exists as IPv6 loopback address, so all IPv6 entries of an answer share one role per case",
+                 "with xcm.local_addr the answer is IPv4-only (the local address must be bindable for every attempt)"],
+    quick=dict(workers=16, cases=150, maxsize=44),
+    thorough=dict(workers=16, cases=4000, maxsize=44),
+)
+
 NOT_APPLICABLE = []
